@@ -9,6 +9,7 @@ def pairs_enc(p):
     return ",".join(hexs(k) + "=" + hexs(v) for k, v in p) if p else "-"
 
 def program(rng, names, n, canon=True):
+    empty = list(getattr(names, "empty", ()))
     names = list(dict.fromkeys(names))[:6] + ["Zz", "New-Field"]
     val = gen_edit.canon_value if canon else gen_edit.any_value
     ops = []
@@ -21,7 +22,7 @@ def program(rng, names, n, canon=True):
         if o == "S": ops.append(f"S:{k}:{hexs(rng.choice(names))}:{hexs(val(rng))}")
         elif o == "I": ops.append(f"I:{k}:{hexs(rng.choice(names))}:{hexs(val(rng))}")
         elif o == "R": ops.append(f"R:{k}:{hexs(rng.choice(names))}")
-        elif o == "N": ops.append(f"N:{k}:{hexs(rng.choice(names))}:{hexs(rng.choice(names + ['Renamed']))}")
+        elif o == "N": ops.append(f"N:{k}:{hexs(gen_edit.rename_old(rng, names, empty))}:{hexs(rng.choice(names + ['Renamed']))}")
         elif o == "G": ops.append(f"G:{k}:{rng.choice([0, 0, 1, 1, 2, 3, 5])}")
         elif o == "A": ops.append(f"A:{k}")
         elif o == "J": ops.append(f"J:{k}:{rng.choice([0, 0, 1, 2, 3, 5])}")
@@ -50,4 +51,6 @@ def corpus_cases():
     out.append(("c3", ["N", "4", f"A:0 A:1 S:1:{h('B')}:{h('b')} S:0:{h('A')}:{h('a')} D:0 S:0:{h('C')}:{h('c')} G:2:0 N:2:{h('B')}:{h('D')}"]))
     out.append(("c4", [T("# c\nA: 1\n# d\n\n\nB: 2"), "4", f"G:0:0 G:1:1 R:0:{h('A')} D:0 I:1:{h('E')}:{h('e')} I:0:{h('F')}:{h('f')} A:2 S:2:{h('G')}:{h('g')}"]))
     out.append(("c5", [T(doc), "4", f"P:3:{pairs_enc([('Q', 'q')])} S:3:{h('R')}:{h('r')} G:0:0 G:1:0 R:0:{h('A')} S:1:{h('A')}:{h('2')}"]))
+    # renames of fields without a value through handles taken before and after, then again through the new entry
+    out.append(("c6", [T("A:\nB: 1\n\nC: \nD:"), "4", f"G:0:0 G:1:1 N:0:{h('A')}:{h('E')} G:2:0 N:2:{h('E')}:{h('F')} N:1:{h('D')}:{h('G')} S:1:{h('H')}:{h('h')} N:1:{h('C')}:{h('C')} R:0:{h('B')} I:2:{h('F')}:{h('f')}"]))
     return out
